@@ -1236,6 +1236,10 @@ func compileExpr(context *funcContext, reg int, expr ast.Expr, ec *expcontext) i
 			raiseCompileError(context, sline(ex), "cannot use '...' outside a vararg function")
 		}
 		context.Proto.IsVarArg &= ^VarArgNeedsArg
+		if 2+ec.varargopt > opMaxArgsB {
+			// the count would wrap in its 9-bit field (... assigned to more than 509 variables)
+			raiseCompileError(context, sline(ex), "too many results taken from '...'")
+		}
 		code.AddABC(OP_VARARG, sreg, 2+ec.varargopt, 0, sline(ex))
 		if context.RegTop() > (sreg+2+ec.varargopt) || ec.varargopt < -1 {
 			return 0
@@ -1763,6 +1767,10 @@ func compileFuncCallExpr(context *funcContext, reg int, expr *ast.FuncCallExpr, 
 	b := argc + 1
 	if islastvararg {
 		b = 0
+	}
+	if b > opMaxArgsB || ec.varargopt+2 > opMaxArgsC {
+		// the counts would wrap in their 9-bit fields (a call assigned to more than 509 variables)
+		raiseCompileError(context, sline(expr), "too many arguments or results in a function call")
 	}
 	context.Code.AddABC(OP_CALL, funcreg, b, ec.varargopt+2, sline(expr))
 	context.Proto.DbgCalls = append(context.Proto.DbgCalls, DbgCall{Pc: context.Code.LastPC(), Name: name})
